@@ -199,6 +199,24 @@ func (s *ShutdownScenario) Run(tmp string, r *rng.R) {
 			_, _ = c.View(ctx, "dd", "v", p)
 		})
 	}
+	if has("ddocs") {
+		// design documents are put, listed and deleted through the very handles that are being closed
+		dd2 := &sgbucket.DesignDoc{Language: "javascript", Views: sgbucket.ViewMap{"w": sgbucket.ViewDef{Map: shutdownViewMap}}}
+		for w := 0; w < 2; w++ {
+			w := w
+			run("design-doc", func(i int) {
+				c := cols[(w+i)%len(cols)][i%2]
+				switch i % 3 {
+				case 0:
+					_ = c.PutDDoc(ctx, fmt.Sprintf("dd%d", w), dd2)
+				case 1:
+					_, _ = c.GetDDocs()
+				default:
+					_ = c.DeleteDDoc(fmt.Sprintf("dd%d", w))
+				}
+			})
+		}
+	}
 	expiring := has("expiry") || has("touch") || has("mass-expiry")
 	if has("mass-expiry") {
 		// many documents share one deadline, so that the expiration run is long enough for a shutdown to land inside it
@@ -277,6 +295,18 @@ func (s *ShutdownScenario) Run(tmp string, r *rng.R) {
 		return
 	}
 	storeDown := s.Shutdown == "delete" || (s.Shutdown == "close-all" && s.Disk)
+	if s.Shutdown == "delete" && len(handles) > 1 {
+		// the bucket was deleted through the last handle; handle 0 was never closed and still has its collections
+		// cached: a feed started through it now has lost the race and must be refused (nobody could ever end it)
+		s.safely("StartDCPFeed(surviving handle)", func() {
+			done := make(chan struct{})
+			err := cols[0][0].StartDCPFeed(ctx, sgbucket.FeedArguments{ID: "late", Backfill: sgbucket.FeedNoBackfill, DoneChan: done}, func(sgbucket.FeedEvent) bool { return true }, nil)
+			s.Count("feeds_tried_through_a_surviving_handle_of_a_deleted_bucket", 1)
+			if err == nil {
+				s.Report("late-feed|"+s.Shutdown, "a live feed started through a still-open handle after its sibling had deleted the bucket was accepted (StartDCPFeed returned nil): nothing can end it any more")
+			}
+		})
+	}
 	if s.Shutdown == "close-one" || s.Shutdown == "drop" || (s.Shutdown == "close-all" && !s.Disk) {
 		// the store is still up: a remaining / fresh handle must work
 		probe := func() error {
